@@ -11,6 +11,7 @@ import (
 	"time"
 
 	"verif/sim/kernel"
+	"verif/sim/ksw"
 )
 
 // C09, C11 and C19 ride on the C04 world (real PgProxy between scripted
@@ -513,13 +514,13 @@ func (C09) Explore(x *kernel.Explorer, seed uint64) {
 	for i := 0; i < 4 && !x.Expired(); i++ {
 		plan := &kernel.Plan{Prop: "C09", Seed: kernel.Mix(seed, uint64(i)), Swarm: map[string]int64{"idlenth": int64([]int{0, 0, 0, 2, 3}[r.Intn(5)]),
 			"chunk": int64(r.Intn(4)), "env": int64(r.Intn(2)), "typed": int64(r.Intn(2)), "params": int64(r.Intn(2)), "mysql": int64(r.Intn(3) / 2), "depeof": int64(r.Intn(2)), "rawmy": int64(r.Intn(2)), "reexec": int64(r.Intn(2)), "wyield": int64(r.Intn(2)),
-			"join": int64(r.Intn(4) / 3)}}
+			"join": int64(r.Intn(4) / 3), "rotfail": int64(r.Intn(3)/2) * int64(1+r.Intn(8))}}
 		n := 2 + r.Intn(7)
 		for j := 0; j < n; j++ {
 			plan.Ops = append(plan.Ops, kernel.Op{ID: j + 1, Kind: "row", A: []int64{int64(r.Intn(6))}})
 		}
 		for j := 0; j < 2+r.Intn(5); j++ {
-			plan.Ops = append(plan.Ops, kernel.Op{ID: 100 + j, Kind: "search", A: []int64{int64(r.Intn(9)), int64(r.Intn(6)), int64(r.Intn(2))}})
+			plan.Ops = append(plan.Ops, kernel.Op{ID: 100 + j, Kind: "search", A: []int64{int64(r.Intn(9)), int64(r.Intn(8)), int64(r.Intn(2))}})
 		}
 		x.Exec(plan)
 	}
@@ -624,12 +625,74 @@ func (C09) Run(t *testing.T, plan *kernel.Plan, keepLog bool) *kernel.Result {
 					}
 				}
 				st.SQL = "SELECT id FROM t1 WHERE c1 = " + lit + " OR c1 = " + lit2
+			case 6, 7:
+				// a condition on an ordinary column, with a value of its own, before the searched one
+				// (with parameters: the searched value is not the first placeholder)
+				first, cond := "'p'", "plain = "
+				if s.shape == 7 {
+					first, cond = "0", "id <> "
+				}
+				if usePar {
+					if mysql {
+						st.Args, lit = []interface{}{"p", s.val}, "?"
+						if s.shape == 7 {
+							st.Args[0] = int64(0)
+						}
+						first = "?"
+					} else {
+						st.Params, lit = [][]byte{[]byte("p"), []byte(s.val)}, "$2"
+						if s.shape == 7 {
+							st.Params[0] = []byte("0")
+						}
+						first = "$1"
+					}
+				}
+				st.SQL = "SELECT id FROM t1 WHERE " + cond + first + " AND c1 = " + lit
 			default:
 				st.SQL = "SELECT id FROM t1 WHERE c1 = " + lit
 			}
 			script = append(script, st)
 		}
-		run := pw.RunSession(owner, script)
+		var run *SessionRun
+		if nth := int(plan.Sw("rotfail")); nth > 0 && len(values) >= 2 && plan.Sw("ksv2") == 0 {
+			// A rotation of the client's HMAC key fails on an I/O error between two sessions of the running
+			// proxy. If the key store still holds the old key afterwards (the rotation did not take effect),
+			// the running proxy must go on computing the same indexes as before.
+			half := len(values) / 2
+			run = pw.RunSession(owner, script[:half])
+			if w.Res.Cut {
+				return
+			}
+			before, kerr := pw.KS.ReadCurrent(ksw.KHmac, []byte(owner))
+			if kerr != nil {
+				w.Violate("C09", "world-builds", site, kerr.Error())
+				return
+			}
+			pw.ArmKeyFault(nth)
+			rerr := pw.KS.Generate(ksw.KHmac, []byte(owner))
+			pw.DisarmKeyFault()
+			obsWorld := kernel.NewWorld(&kernel.Plan{}, false)
+			obsWorld.MaxSteps = 1 << 60
+			obs, oerr := ksw.Open(obsWorld, 0, pw.Disk, -1)
+			var stored ksw.KeyVal
+			if oerr == nil {
+				stored, oerr = obs.ReadCurrent(ksw.KHmac, []byte(owner))
+			}
+			if rerr == nil || oerr != nil || !bytes.Equal(stored.Secret, before.Secret) {
+				// the rotation took effect (or the store is not readable): later indexes legitimately differ
+				w.Probe("hmac-rotation-took-effect")
+				w.State(site + " rotation-took-effect")
+				w.Res.SimNanos = int64(time.Since(start))
+				return
+			}
+			w.Probe("hmac-rotation-failed-cleanly")
+			w.Res.Fired["keystore-io-error"]++
+			run2 := pw.RunSession(owner, script[half:])
+			run.Results = append(run.Results, run2.Results...)
+			run.Stuck, run.ClientErr, run.ProxyErrs = run.Stuck || run2.Stuck, run.ClientErr+run2.ClientErr, append(run.ProxyErrs, run2.ProxyErrs...)
+		} else {
+			run = pw.RunSession(owner, script)
+		}
 		if w.Res.Cut {
 			return
 		}
